@@ -553,10 +553,12 @@ impl Range {
                 max,
                 scale,
                 offset,
-            } => Self::from_min_max(
-                *min as f64 * *scale + *offset,
-                *max as f64 * *scale + *offset,
-            ),
+            } => {
+                // A negative scale reverses the order of the two ends of the range
+                let first = *min as f64 * *scale + *offset;
+                let second = *max as f64 * *scale + *offset;
+                Self::from_min_max(first.min(second), first.max(second))
+            }
             RecordDataType::Integer { min, max } => Self::from_min_max(*min as f64, *max as f64),
         }
     }
